@@ -42,6 +42,8 @@ Verdict(r) ==
           ELSE IF r.out.ok # e.ok THEN "bad-okness"
           ELSE IF e.ok /\ ~SameOut(r.out.v, e.v) THEN "bad-value"
           ELSE IF e.ok /\ ~SameLogBag(r.out.log, e.log) THEN "bad-log"
+          \* which variant of the error enumeration: pinned by no property, reported as drift
+          ELSE IF ~e.ok /\ e.v.t = "s" /\ r.out.v.t = "s" /\ r.out.v.v # e.v.v THEN "variant-drift"
           ELSE "ok"
 
 Init == i \in 1..N /\ verdict = "new"
